@@ -425,12 +425,26 @@ class BodyPartReader:
         encoding = self.headers.get(CONTENT_TRANSFER_ENCODING)
         if encoding and encoding.lower() == "base64":
             chunk = self._align_base64_chunk(chunk, len(carry) + want)
+        elif encoding and encoding.lower() == "quoted-printable":
+            chunk = self._align_qp_chunk(chunk)
 
         if self._read_bytes == self._length:
             self._at_eof = True
         if self._at_eof and await self._content.readline() != b"\r\n":
             raise ValueError("Reader did not read all the data or it is malformed")
         return chunk
+
+    def _align_qp_chunk(self, chunk: bytes) -> bytes:
+        # Every chunk is decoded on its own as well: an escape (=XX) or a soft
+        # line break (=CRLF) cut by the chunk edge goes into the next chunk.
+        at_end = self._at_eof or (
+            self._length is not None and self._read_bytes >= self._length
+        )
+        cut = chunk.rfind(b"=", max(len(chunk) - 2, 0))
+        if at_end or cut < 0:
+            return chunk
+        self._b64_carry = chunk[cut:]
+        return chunk[:cut]
 
     def _align_base64_chunk(self, chunk: bytes, size: int) -> bytes:
         at_end = self._at_eof or (
